@@ -483,7 +483,8 @@ def run(repo: Repo, R: Report) -> None:
         "typing.cast/isinstance/bool/type/id and the Payload constructor do not raise",
         "for the per-node rule only node execution (_submit_and_wait / node.process), explicit raise statements and _publish are failure points; the orchestrator's own bookkeeping helpers are covered by C10's containment rules",
     )
-    R.undecided("schema validity of free-form content (meta, summaries, error text)", "disk faults while writing")
+    R.undecided("schema validity of free-form content (meta, summaries, error text)", "disk faults while writing",
+                "a mapping with keys of mixed types passes the sanitisers' probe json.dumps(obj) but not the driver's json.dumps(record, sort_keys=True)")
     drivers, fold = X.drivers, X.fold
 
     # ------------------------------------------------------------------ D1a pipeline bracket
@@ -642,6 +643,7 @@ def run(repo: Repo, R: Report) -> None:
 
     # ------------------------------------------------------------------ D1d/D1e the code that closes the bracket cannot itself fail
     _closing_code_rules(repo, R, fn, g, drivers)
+    _propagation_rules(repo, R, X)
 
     # ------------------------------------------------------------------ D3 ids, order, edges
     r_ids = R.rule("C06-D3-ids-order-edges", "all records of a run carry the run/pipeline id given to pipeline_start; SER node ids follow canonical order; upstream lists are the canonical edges inverted", 6)
@@ -859,6 +861,144 @@ def _instantiation_order_rule(repo: Repo, R: Report, r_ids) -> None:
 
     ok = len(loops) == 1 and over_spec(loops[0].iter) and any(call_attr(c) == "append" and isinstance(c.func, ast.Attribute) and dotted_name(c.func.value) in returned_lists for c in calls_in(loops[0]))
     R.check(ok, r_ids, ORCH, "SemantivaOrchestrator._instantiate_nodes", norm(loops[0]) if loops else "for node_def in pipeline_spec", "nodes are not instantiated by appending in spec order", inst.lineno)
+
+
+
+# ---------------------------------------------------------------------------
+# D1f: a failure travels from its origin to the caller of execute as the same exception object
+# ---------------------------------------------------------------------------
+
+EXECUTOR = "semantiva/execution/executor/executor.py"
+# calls that cannot be the origin of a run failure (bookkeeping on fresh local containers / total builtins)
+NOT_AN_ORIGIN = {"append", "extend", "dict", "list", "tuple", "len", "enumerate", "range", "zip", "isinstance", "cast", "get", "debug", "info", "warning", "type", "id", "bool"}
+
+
+def _same_exception_raise(st: ast.Raise) -> bool:
+    """``raise`` / ``raise <name bound by the enclosing handler>`` / ``raise <that name>.with_traceback(..)``:
+    the caller receives the object that was caught."""
+    if st.exc is None:
+        return True
+    e = st.exc
+    if isinstance(e, ast.Call) and isinstance(e.func, ast.Attribute) and e.func.attr == "with_traceback":
+        e = e.func.value
+    if not isinstance(e, ast.Name):
+        return False
+    for a in ancestors(st):
+        if isinstance(a, FuncNode):
+            break
+        if isinstance(a, ast.ExceptHandler) and a.name == e.id:
+            # the name still holds the caught exception: not rebound inside the handler
+            rebound = any(isinstance(x, ast.Name) and x.id == e.id and isinstance(x.ctx, ast.Store) for x in walk_no_nested(a))
+            return not rebound
+    return False
+
+
+def _propagation_in(R: Report, r, rel: str, qn: str, fn: ast.AST, is_origin, what: str, fold=None, repo: Optional[Repo] = None, _seen: Optional[Set[str]] = None) -> int:
+    """On the CFG of *fn* where only origin calls and raise statements fail: every path that starts on an
+    exception edge of an origin call ends in an exceptional exit of *fn* and passes no raise statement that
+    raises a different object.  An origin call that is a helper of the same module which the normaliser left as
+    a call (`self._x(..)` / `_x(..)`) is followed: the failure passes through its handlers as well."""
+    n_extra = 0
+    if repo is not None:
+        _seen = _seen if _seen is not None else {qn}
+        mod = repo.module(rel)
+        for c in calls_in(fn):
+            if not is_origin(c):
+                continue
+            f = c.func
+            local = isinstance(f, ast.Name) or (isinstance(f, ast.Attribute) and isinstance(f.value, ast.Name) and f.value.id in ("self", "cls"))
+            name = call_attr(c)
+            if not local or not name:
+                continue
+            for q2, d in mod.defs.items():
+                if isinstance(d, FuncNode) and q2.split(".")[-1] == name and q2 not in _seen and not _is_abstract(d) and len(_seen) < 12:
+                    if isinstance(f, ast.Name) and "." in q2:
+                        continue
+                    _seen.add(q2)
+                    n_extra += _propagation_in(R, r, rel, q2, nfunc(repo, rel, q2), lambda c2: call_attr(c2) not in NOT_AN_ORIGIN, what + f" (through {name})", repo=repo, _seen=_seen)
+
+    def mr(part: ast.AST) -> Set[str]:
+        for n in walk_no_nested(part):
+            if isinstance(n, ast.Raise) or (isinstance(n, ast.Call) and is_origin(n)):
+                return {EXC, BASE}
+        return set()
+
+    g = CFG(fn, fold=fold, may_raise=mr)
+    n_inst = 0
+    seen_ast: Set[int] = set()
+    for n in g.nodes:
+        if n.ast is None or n.kind == "except" or isinstance(n.ast, FuncNode + (ast.ClassDef, ast.Raise)):
+            continue
+        part = n.part if n.part is not None else n.ast
+        origin_calls = [c for c in calls_in(part) if is_origin(c)] if n.kind != "stmt" else [c for c in calls_in(n.ast) if is_origin(c)]
+        if not origin_calls or id(n.ast) in seen_ast:
+            continue
+        seen_ast.add(id(n.ast))
+        ids = g.nodes_for(n.ast)
+        starts = [t for i in ids for t, lab in g.succ[i] if lab in (EXC, BASE)]
+        label = f"{what}: `{norm(origin_calls[0])[:60]}` fails"
+        n_inst += 1
+        if not starts:
+            raise AnalysisError(f"{qn}: no exception edge out of `{norm(n.ast)[:60]}`")
+        seen = g.reach(starts)
+        for s_ in starts:
+            seen.setdefault(s_, None)
+        bad = None
+        for m in g.nodes:
+            if m.id in seen and m.kind == "stmt" and isinstance(m.ast, ast.Raise) and not _same_exception_raise(m.ast):
+                bad = m
+                break
+        if bad is not None:
+            R.violation(r, rel, qn, norm(bad.ast)[:110],
+                        f"{label}: the exception is caught on its way out and `{norm(bad.ast)[:70]}` raises a different object instead (the original is at best its __cause__): the caller of execute does not receive the original exception, and pipeline_end reports the rewritten text", bad.ast.lineno, g.path_to(seen, bad.id))
+        elif g.ret_exit in seen:
+            R.violation(r, rel, qn, norm(n.ast)[:110], f"{label}: a handler swallows the exception (the function can still return normally): the failure does not reach the caller of execute", n.line, g.path_to(seen, g.ret_exit))
+        else:
+            R.ok(r, rel, qn, label, "reaches the exceptional exit unchanged")
+    return n_inst + n_extra
+
+
+def _propagation_rules(repo: Repo, R: Report, X: "_Exec") -> None:
+    r = R.rule("C06-D1f-failure-propagates-unchanged", "on the way from a failure origin inside the quantifier (node construction in _instantiate_nodes, node execution through _submit_and_wait / executor.submit / the node callable) to the caller of execute, no handler replaces the exception (`raise Other(...) [from exc]`) or swallows it: every handler that can see it ends in a bare `raise` / `raise <caught name>`",4)
+    omod = repo.module(ORCH)
+    total = 0
+    # execute itself: the construction call and the node run
+    fn = X.fn
+    total += _propagation_in(R, r, ORCH, EXECUTE, fn, lambda c: call_attr(c) in ("_instantiate_nodes", "_submit_and_wait"), "execute", fold=X.fold)
+    # the callable handed to _submit_and_wait, when it is a local function of execute
+    for c in calls_in(fn):
+        if call_attr(c) == "_submit_and_wait":
+            for a in list(c.args) + [k.value for k in c.keywords]:
+                if isinstance(a, ast.Name):
+                    for d in ast.walk(fn):
+                        if isinstance(d, FuncNode) and d.name == a.id and d is not fn:
+                            total += _propagation_in(R, r, ORCH, EXECUTE + "." + d.name, d, lambda c2: call_attr(c2) not in NOT_AN_ORIGIN, "node callable")
+    # construction
+    inst = nfunc(repo, ORCH, "SemantivaOrchestrator._instantiate_nodes")
+    total += _propagation_in(R, r, ORCH, "SemantivaOrchestrator._instantiate_nodes", inst, lambda c: call_attr(c) not in NOT_AN_ORIGIN, "node construction", repo=repo)
+    # every concrete _submit_and_wait, and every concrete executor submit (the node callable is its first parameter)
+    base = repo.cls(ORCH, "SemantivaOrchestrator")
+    for mod, cls in [(omod, base)] + repo.subclasses(base):
+        for st in cls.body:
+            if isinstance(st, FuncNode) and st.name == "_submit_and_wait" and not _is_abstract(st):
+                qn = qualname_of(st)
+                nf = nfunc(repo, mod.rel, qn)
+                total += _propagation_in(R, r, mod.rel, qn, nf, lambda c: call_attr(c) not in NOT_AN_ORIGIN, "node execution", repo=repo)
+    ebase = repo.cls(EXECUTOR, "SemantivaExecutor")
+    for mod, cls in repo.subclasses(ebase):
+        for st in cls.body:
+            if isinstance(st, FuncNode) and st.name == "submit" and not _is_abstract(st):
+                qn = qualname_of(st)
+                nf = nfunc(repo, mod.rel, qn)
+                pos = [a.arg for a in nf.args.posonlyargs + nf.args.args]
+                callee = pos[1] if len(pos) > 1 else None
+                total += _propagation_in(R, r, mod.rel, qn, nf, lambda c, callee=callee: isinstance(c.func, ast.Name) and c.func.id == callee, "executor runs the node callable")
+    if total < 3:
+        raise AnalysisError("failure path from node construction / node execution to the caller of execute was not recognised")
+
+
+def _is_abstract(fn: ast.AST) -> bool:
+    return any((dotted_name(d) or "").split(".")[-1] == "abstractmethod" for d in getattr(fn, "decorator_list", []))
 
 
 # ---------------------------------------------------------------------------
@@ -1518,6 +1658,7 @@ def _schema_rules(repo: Repo, R: Report, X: Optional["_Exec"] = None) -> None:
         if rtype in ("pipeline_start",):
             pass
     _json_safety_rules(repo, R, fallback_pops)
+    _sanitiser_rules(repo, R)
     # SER: dataclass fields + nested literals in _make_ser_record
     ser_schema = _load_schema(repo, registry.get("ser", "x/semantic_execution_record_v1.schema.json").split("/")[-1])
     req, props = _flatten(repo, ser_schema)
@@ -1640,6 +1781,332 @@ def _json_safety_rules(repo: Repo, R: Report, fallback_pops) -> None:
     R.check(ok, r, GRAPH, "build_canonical_spec", "json.dumps(canon) precedes nodes.append(...)", "canonical nodes are no longer serialised when built: a non-JSON parameter is only discovered when the trace is written" + (f" ({why})" if why else ""), bcs.lineno)
     for qn, c, k in fallback_pops:
         R.ok(r, JSONL, qn, norm(c), f"fallback drops required key {k!r}; unreachable while the producers above hold", c.lineno)
+
+
+
+# ---------------------------------------------------------------------------
+# D2c: the sanitisers the JSON-safety argument rests on are sound
+# ---------------------------------------------------------------------------
+
+UTILS = "semantiva/trace/_utils.py"
+SEMID = "semantiva/metadata/semantic_id.py"
+# (file, function): what the orchestrator / metadata code passes every free-form value through before it enters a record
+SANITISER_FUNCS = [(UTILS, "serialize_json_safe"), (UTILS, "safe_repr"), (SEMID, "_json_safe_sample")]
+JSON_SCALAR_TYPES = {"str", "int", "float", "bool", "NoneType"}
+TEXT_CALLS = {"str", "repr", "ascii", "format", "safe_repr", "hex", "oct", "bin", "chr"}
+TEXT_METHODS_ALWAYS = {"join", "format", "format_map", "hexdigest", "isoformat"}
+TEXT_METHODS_OF_TEXT = {"strip", "lstrip", "rstrip", "lower", "upper", "replace", "title", "capitalize", "ljust", "rjust", "center", "removeprefix", "removesuffix",
+                        "zfill", "expandtabs", "casefold", "swapcase", "translate"}
+SAFE_CALLS = {"int", "float", "bool", "len", "round", "abs", "sha256_bytes", "_sha256_json", "serialize_json_safe", "_json_safe_sample"}
+PERMISSIVE_DUMPS_KW = {"default", "cls", "skipkeys"}
+
+
+def _type_names(mod, e: ast.AST, depth: int = 0) -> Optional[Set[str]]:
+    """The classes a type expression (second argument of isinstance) denotes: builtin names, tuples, ``a + b`` of
+    tuples, ``type(None)``, module-level names bound once to such an expression; None when unknown."""
+    if depth > 6:
+        return None
+    if isinstance(e, ast.Call) and call_name(e) == "type" and len(e.args) == 1 and isinstance(e.args[0], ast.Constant) and e.args[0].value is None:
+        return {"NoneType"}
+    if isinstance(e, ast.Attribute) and e.attr == "NoneType":
+        return {"NoneType"}
+    if isinstance(e, ast.Tuple):
+        out: Set[str] = set()
+        for x in e.elts:
+            sub = _type_names(mod, x, depth + 1)
+            if sub is None:
+                return None
+            out |= sub
+        return out
+    if isinstance(e, ast.BinOp) and isinstance(e.op, (ast.Add, ast.BitOr)):
+        l, r_ = _type_names(mod, e.left, depth + 1), _type_names(mod, e.right, depth + 1)
+        return None if l is None or r_ is None else l | r_
+    if isinstance(e, ast.Constant) and e.value is None:
+        return {"NoneType"}
+    if isinstance(e, ast.Name):
+        vals = [st.value for st in mod.tree.body if isinstance(st, (ast.Assign, ast.AnnAssign)) and st.value is not None
+                and any(isinstance(t, ast.Name) and t.id == e.id for t in (st.targets if isinstance(st, ast.Assign) else [st.target]))]
+        if len(vals) == 1:
+            return _type_names(mod, vals[0], depth + 1)
+        if vals or e.id in mod.imports or e.id in mod.defs:
+            return None
+        return {e.id}
+    return None
+
+
+class _Sanitiser:
+    """One sanitiser function on its normal form: which of the values it returns are JSON-encodable for sure."""
+
+    def __init__(self, repo: Repo, rel: str, qn: str, depth: int = 0):
+        self.repo, self.rel, self.qn, self.depth = repo, rel, qn, depth
+        self.mod = repo.module(rel)
+        self.raw_fn = repo.func(rel, qn)
+        self.fn = nfunc(repo, rel, qn, ifexp=False)
+        self.g = CFG(self.fn)
+        self.V = _Vals(self.g, self.fn)
+
+    # -- is this expression the (unmodified) parameter? ---------------------------------------------------
+    def param_of(self, e: ast.AST, site) -> Optional[str]:
+        alts = self.V.resolve(e, site)
+        if len(alts) == 1 and isinstance(alts[0], ast.Name) and alts[0].id.endswith("@param"):
+            return alts[0].id
+        return None
+
+    # -- tests that prove encodability ----------------------------------------------------------------------
+    def _scalar_test(self, t: ast.AST, is_subject) -> bool:
+        """``isinstance(<subject>, <JSON scalar types>)`` / ``<subject> is None`` / ``type(<subject>) in (...)``."""
+        if isinstance(t, ast.Call) and call_name(t) == "isinstance" and len(t.args) == 2 and not t.keywords and is_subject(t.args[0]):
+            names = _type_names(self.mod, t.args[1])
+            return bool(names) and names <= JSON_SCALAR_TYPES
+        if isinstance(t, ast.Compare) and len(t.ops) == 1:
+            left, op, right = t.left, t.ops[0], t.comparators[0]
+            if isinstance(op, ast.Is) and isinstance(right, ast.Constant) and right.value is None and is_subject(left):
+                return True
+            if isinstance(op, (ast.In, ast.Is, ast.Eq)) and isinstance(left, ast.Call) and call_name(left) == "type" and len(left.args) == 1 and is_subject(left.args[0]):
+                names = _type_names(self.mod, right)
+                return bool(names) and names <= JSON_SCALAR_TYPES
+        return False
+
+    def _all_items(self, t: ast.AST, is_subject, want_types: Set[str]) -> bool:
+        """``all(<scalar test of the item> for <item> in <subject>[.items()/.values()])``."""
+        if not (isinstance(t, ast.Call) and call_name(t) == "all" and len(t.args) == 1 and not t.keywords and isinstance(t.args[0], (ast.GeneratorExp, ast.ListComp))):
+            return False
+        comp = t.args[0]
+        if len(comp.generators) != 1 or comp.generators[0].ifs or comp.generators[0].is_async:
+            return False
+        gen = comp.generators[0]
+        if "dict" in want_types:
+            if not (isinstance(gen.iter, ast.Call) and call_attr(gen.iter) == "items" and isinstance(gen.iter.func, ast.Attribute) and is_subject(gen.iter.func.value) and not gen.iter.args):
+                return False
+            if not (isinstance(gen.target, ast.Tuple) and len(gen.target.elts) == 2 and all(isinstance(x, ast.Name) for x in gen.target.elts)):
+                return False
+            k, v = gen.target.elts[0].id, gen.target.elts[1].id
+            if not (isinstance(comp.elt, ast.BoolOp) and isinstance(comp.elt.op, ast.And)):
+                return False
+            key_ok = any(isinstance(c, ast.Call) and call_name(c) == "isinstance" and len(c.args) == 2 and isinstance(c.args[0], ast.Name) and c.args[0].id == k
+                         and _type_names(self.mod, c.args[1]) == {"str"} for c in comp.elt.values)
+            val_ok = any(self._scalar_test(c, lambda x: isinstance(x, ast.Name) and x.id == v) for c in comp.elt.values)
+            return key_ok and val_ok
+        if not (is_subject(gen.iter) and isinstance(gen.target, ast.Name)):
+            return False
+        item = gen.target.id
+        return self._scalar_test(comp.elt, lambda x: isinstance(x, ast.Name) and x.id == item)
+
+    def proves(self, test: ast.AST, is_subject) -> Optional[bool]:
+        """atom for cfg.edges_guaranteeing: True when *test* being true means the subject is JSON-encodable."""
+        if self._scalar_test(test, is_subject):
+            return True
+        if isinstance(test, ast.Call) and isinstance(test.func, ast.Name) and len(test.args) == 1 and not test.keywords and is_subject(test.args[0]) \
+                and self._predicate_proves(test.func.id):
+            return True
+        if isinstance(test, ast.BoolOp) and isinstance(test.op, ast.And):
+            for c in test.values:
+                if isinstance(c, ast.Call) and call_name(c) == "isinstance" and len(c.args) == 2 and is_subject(c.args[0]):
+                    names = _type_names(self.mod, c.args[1])
+                    if names and (names <= {"list", "tuple"} or names == {"dict"}) and any(self._all_items(o, is_subject, names) for o in test.values if o is not c):
+                        return True
+        return None
+
+    def _predicate_proves(self, name: str) -> bool:
+        """A predicate of the same module (``def _is_jsonable(v): ...``): every return of a true value happens after
+        a proof that its argument is JSON-encodable, so the predicate being true is such a proof."""
+        from ..cfg import edges_guaranteeing
+        d = self.mod.defs.get(name)
+        if not isinstance(d, ast.FunctionDef) or self.depth >= 3:
+            return False
+        pos = [a.arg for a in d.args.posonlyargs + d.args.args]
+        if not pos:
+            return False
+        memo = self.repo.__dict__.setdefault("_c06_predicates", {})
+        key = (self.rel, name)
+        if key in memo:
+            return memo[key]
+        memo[key] = False  # recursion: not a proof
+        P = _Sanitiser(self.repo, self.rel, name, depth=self.depth + 1)
+        ptag = f"{pos[0]}@param"
+        blocked = P.proof_edges(ptag)
+        seen = P.g.reach([P.g.entry], blocked_edges=blocked)
+        ok = True
+        n_true = 0
+        for n in P.g.nodes:
+            if not (n.kind == "stmt" and isinstance(n.ast, ast.Return)):
+                continue
+            v = n.ast.value
+            if v is None or (isinstance(v, ast.Constant) and not v.value):
+                continue
+            n_true += 1
+            if n.id not in seen:
+                continue
+            subj = lambda x, nid=n.id: P.param_of(x, [nid]) == ptag
+            if not isinstance(v, ast.Constant) and "T" in edges_guaranteeing(v, lambda t: P.proves(t, subj)):
+                continue
+            ok = False
+        memo[key] = ok and n_true > 0
+        return memo[key]
+
+    # -- proof edges on the CFG ----------------------------------------------------------------------------
+    def proof_edges(self, ptag: str) -> Set[Tuple[int, str]]:
+        from ..cfg import edges_guaranteeing
+        g = self.g
+        out: Set[Tuple[int, str]] = set()
+        for n in g.nodes:
+            if n.ast is None:
+                continue
+            subj = lambda x, nid=n.id: self.param_of(x, [nid]) == ptag
+            if n.kind == "stmt" and not isinstance(n.ast, FuncNode + (ast.ClassDef,)):
+                for c in calls_in(n.ast):
+                    if _is_json_dumps(self.repo, self.mod, c) and (c.args or kwarg(c, "obj") is not None) and not any(k.arg in PERMISSIVE_DUMPS_KW or k.arg is None for k in c.keywords):
+                        a0 = c.args[0] if c.args else kwarg(c, "obj")
+                        if subj(a0):
+                            out |= {(n.id, lab) for _t, lab in g.succ[n.id] if lab not in (EXC, BASE)}
+            elif n.kind in ("if", "while") and n.part is not None:
+                for lab in edges_guaranteeing(n.part, lambda t: self.proves(t, subj)):
+                    out.add((n.id, lab))
+        return out
+
+    # -- classification of a returned value ----------------------------------------------------------------
+    def classify(self, e: ast.AST, site, depth: int = 0) -> Set[str]:
+        """{'text', 'safe', 'raw:<param>', '?<source>'} over the alternatives of *e*."""
+        out: Set[str] = set()
+        for alt in self.V.resolve(e, site):
+            out |= self._cls(alt, site, depth)
+        return out
+
+    def _cls(self, e: ast.AST, site, depth: int) -> Set[str]:
+        V = self.V
+        unknown = {"?" + norm(e)[:60]}
+        if depth > 8:
+            return unknown
+        if isinstance(e, ast.Constant):
+            return {"text"} if isinstance(e.value, str) else ({"safe"} if e.value is None or isinstance(e.value, (bool, int, float)) else unknown)
+        if isinstance(e, ast.JoinedStr):
+            return {"text"}
+        if isinstance(e, ast.Name):
+            if e.id.endswith("@param"):
+                return {"raw:" + e.id}
+            if e.id in V.info:
+                d, kind, v, _path = V.info[e.id]
+                if kind == "value" and v is not None:
+                    out: Set[str] = set()
+                    for alt in V.resolve(v, [d.id]):
+                        if isinstance(alt, ast.Name) and alt.id == e.id:
+                            # not substituted (a call, a display): look at the expression that was bound
+                            out |= self._expr(V._simplify(v), [d.id], depth + 1)
+                        else:
+                            out |= self._cls(alt, [d.id], depth + 1)
+                    return out
+            return unknown
+        return self._expr(e, site, depth)
+
+    def _expr(self, e: ast.AST, site, depth: int) -> Set[str]:
+        unknown = {"?" + norm(e)[:60]}
+        sub = lambda x: self.classify(x, site, depth + 1)
+        if isinstance(e, (ast.Constant, ast.JoinedStr, ast.Name)):
+            return self._cls(e, site, depth)
+        if isinstance(e, ast.Attribute) and e.attr in SAFE_DUNDERS:
+            return {"text"}
+        if isinstance(e, ast.Call):
+            a = call_attr(e)
+            if isinstance(e.func, ast.Name):
+                if a in TEXT_CALLS:
+                    return {"text"}
+                if a in SAFE_CALLS:
+                    return {"safe"}
+            d = call_name(e) or ""
+            head, _, rest = d.partition(".")
+            if (self.mod.imports.get(head, head) + ("." + rest if rest else "")) == "json.loads":
+                return {"safe"}
+            if isinstance(e.func, ast.Attribute):
+                if a in TEXT_METHODS_ALWAYS:
+                    return {"text"}
+                if a in TEXT_METHODS_OF_TEXT and sub(e.func.value) == {"text"}:
+                    return {"text"}
+            if a in TEXT_CALLS or a in SAFE_CALLS:
+                return {"text"} if a in TEXT_CALLS else {"safe"}
+            return unknown
+        if isinstance(e, ast.BinOp):
+            l, r_ = sub(e.left), sub(e.right)
+            if isinstance(e.op, ast.Add) and l == {"text"} and r_ == {"text"}:
+                return {"text"}
+            if isinstance(e.op, ast.Mod) and l == {"text"}:
+                return {"text"}
+            if isinstance(e.op, ast.Mult) and ({"text"} in (l, r_)) and (l | r_) <= {"text", "safe"}:
+                return {"text"}
+            return unknown
+        if isinstance(e, ast.Subscript):
+            return {"text"} if sub(e.value) == {"text"} else unknown
+        if isinstance(e, ast.IfExp):
+            return sub(e.body) | sub(e.orelse)
+        if isinstance(e, ast.BoolOp):
+            out: Set[str] = set()
+            for v in e.values:
+                out |= sub(v)
+            return out
+        if isinstance(e, (ast.List, ast.Tuple)):
+            parts = [sub(x) for x in e.elts]
+            return {"safe"} if all(p_ <= {"text", "safe"} for p_ in parts) else unknown
+        if isinstance(e, ast.Dict):
+            ok = all(k is not None and sub(k) == {"text"} and sub(v) <= {"text", "safe"} for k, v in zip(e.keys, e.values))
+            return {"safe"} if ok else unknown
+        if isinstance(e, (ast.ListComp, ast.GeneratorExp)) and not isinstance(e, ast.GeneratorExp):
+            return {"safe"} if self._expr(e.elt, site, depth + 1) <= {"text", "safe"} else unknown
+        return unknown
+
+
+def _sanitiser_rules(repo: Repo, R: Report) -> None:
+    r = R.rule("C06-D2c-sanitiser-sound", "the functions every free-form value passes through before it enters a trace record (serialize_json_safe, safe_repr, _json_safe_sample) return only text, or their argument after it was proven JSON-encodable on every path to that return: a strict json.dumps of the whole value completed, or a type test against JSON scalar types (for a container: of every item) holds - a shallow test of a container lets a nested non-JSON object into the record, json.dumps in the driver raises, the SER is lost and the caller gets TypeError instead of its own exception", 4)
+    for rel, qn in SANITISER_FUNCS:
+        S = _Sanitiser(repo, rel, qn)
+        g = S.g
+        rets = [n for n in g.nodes if n.kind == "stmt" and isinstance(n.ast, ast.Return)]
+        if not rets:
+            raise AnalysisError(f"{qn}: no return statement found")
+        edges_cache: Dict[str, Set[Tuple[int, str]]] = {}
+        done: Set[int] = set()
+        for n in rets:
+            if id(n.ast) in done:
+                continue
+            done.add(id(n.ast))
+            ids = g.nodes_for(n.ast)
+            if n.ast.value is None:
+                R.ok(r, rel, qn, norm(n.ast), "returns None")
+                continue
+            arms: List[Tuple[ast.AST, List[Tuple[ast.AST, bool]]]] = []
+
+            def split(e: ast.AST, guards):
+                if isinstance(e, ast.IfExp):
+                    split(e.body, guards + [(e.test, True)])
+                    split(e.orelse, guards + [(e.test, False)])
+                else:
+                    arms.append((e, guards))
+
+            split(n.ast.value, [])
+            problems: List[str] = []
+            for arm, guards in arms:
+                for tag in sorted(S.classify(arm, ids)):
+                    if tag in ("text", "safe"):
+                        continue
+                    if tag.startswith("raw:"):
+                        ptag = tag[4:]
+                        if ptag not in edges_cache:
+                            edges_cache[ptag] = S.proof_edges(ptag)
+                        seen = g.reach([g.entry], blocked_edges=edges_cache[ptag])
+                        open_ids = [i for i in ids if i in seen]
+                        if not open_ids:
+                            continue
+                        from ..cfg import edges_guaranteeing
+                        subj = lambda x, ids_=ids: S.param_of(x, ids_) == ptag
+                        if any(("T" if pol else "F") in edges_guaranteeing(t, lambda tt: S.proves(tt, subj)) for t, pol in guards):
+                            continue
+                        path = g.path_to(seen, open_ids[0])
+                        via = next((p_.split(": ", 1)[-1].split(" <-")[0][:80] for p_ in reversed(path[:-1]) if ": <" not in p_), "function entry")
+                        problems.append(f"returns its argument `{ptag.split('@')[0]}` unchanged on a path where nothing proves it JSON-encodable (reached via `{via}`): only a strict json.dumps of the whole value, or a scalar-type test of it (of every item, for a container), does")
+                    else:
+                        problems.append(f"returns `{tag[1:]}`, which is neither text nor a value proven JSON-encodable")
+            if problems:
+                R.violation(r, rel, qn, norm(n.ast)[:100], problems[0] + "; the value goes unsanitised into SER processor.parameters / assertions, json.dumps in JsonlTraceDriver raises TypeError, the SER of a started node is not written and the original exception is replaced", n.ast.lineno)
+            else:
+                R.ok(r, rel, qn, norm(n.ast)[:100], "text, or the argument after a proof of encodability")
 
 
 def _nodes_serialised_when_built(repo: Repo) -> Tuple[bool, str]:
